@@ -40,7 +40,8 @@ MANIFEST = {
             'exit; with 0-5 bystanders.  Named tasks: CANCELED unless already '
             'finished/started, process gone, resources released exactly once, '
             'node map restored.  Bystanders: same final outcome as in the run '
-            'without the request, nothing dropped from queues or pools.',
+            'without the request, nothing dropped from queues or pools.'
+            '  Second session: a CancelWatch observer requires that once the scheduling loop has consumed the request no named task sits in the wait pool at a step boundary or is started.',
     'note': 'scheduler stage and executor stage are exercised separately; the '
             'client side of cancel_tasks (control message with forward flag) '
             'is covered by C16; executor histories use real threads/processes '
